@@ -114,17 +114,20 @@ theorem ledger_conservation (height : Nat) (items : List Item) (ops : List Op) :
   · exact conserved_of_ok l (run_ok _ ops (close_ok height items))
   · rw [entitlement_eq, run_items, close_items]
 
-/-- **balances_drain** — (i) once every item is buried (`Matured`, or `Gone` to the counterparty)
-    no balance is reported any more and spendable = entitlement − fees − lost; (ii) from any
-    ledger in which nothing is still pending, one sufficiently high block buries everything: the
-    balances DO drain. -/
-theorem balances_drain (l : Ledger) :
-    (allSettled l = true → (∀ e ∈ l.entries, e.ok) →
+/-- **balances_drain** — for every ledger state `l` reachable from a closure: (i) once every item
+    is buried (`Matured`, or `Gone` to the counterparty) no balance is reported any more and
+    spendable = entitlement − fees − lost; (ii) if nothing is still pending, one sufficiently high
+    block buries everything: the balances DO drain. -/
+theorem balances_drain (height : Nat) (items : List Item) (ops : List Op) :
+    let l := run (close height items) ops
+    (allSettled l = true →
         balances l = [] ∧ spendableTotal l + feesTotal l + lostTotal l = entitlement l) ∧
     ((∀ e ∈ l.entries, e.stage ≠ .pending) →
         ∃ H, ∀ H', H ≤ H' → allSettled (step l (.block H')) = true) := by
+  intro l
+  have hok : ∀ e ∈ l.entries, e.ok := run_ok _ ops (close_ok height items)
   constructor
-  · intro hs hok
+  · intro hs
     have hbal : balances l = [] := by
       unfold balances
       rw [List.filterMap_eq_nil_iff]
